@@ -436,7 +436,7 @@ def c07(run):
     run.cov["rule"] = ("ros2 events: seeded random inputs to the six ROS 2 analyses: event source / timer / polling-point callback / chain "
                        "over nested request bounds (all arrival and cost kinds), rr and bw subchains over 1-4 callbacks of all four kinds "
                        "with known / unknown priorities, assumed bounds WCET..WCET+20, singleton and multi-callback subchains, "
-                       "Scalar / Multiframe / Curve costs, dedicated / periodic / constrained supplies (P<=6, thorough 10), limits 1..50 (120); "
+                       "Scalar / Multiframe / Curve costs, dedicated / periodic / constrained supplies (P<=6, thorough 10), limits 1..50 (120); 15000 (90000) events; "
                        "non-trivial = outcome is not Ok(0); distinct = canonical JSON of the input")
     run.assumptions += ["definitional evaluation over the demand / arrival / cost tables recorded from the objects passed to the analysis",
                         "supply-bound function from Supply.tla (reservation parameters alone)"]
